@@ -112,8 +112,10 @@ if kind == "never_reads":
     while True:
         time.sleep(3600)
 if kind == "flood":
-    line = (json.dumps({"jsonrpc": "2.0", "method": "notifications/message",
-                        "params": {"level": "info", "data": "x" * 200}}) + "\n").encode()
+    one = {"jsonrpc": "2.0", "method": "notifications/message", "params": {"level": "info", "data": "x" * 200}}
+    # `batch`: every line is a JSON-RPC batch (an array) - a client whose negotiated version has no batching answers
+    # each of them with an error ON OUR STDIN, which we never read
+    line = (json.dumps([one, one] if spec.get("batch") else one) + "\n").encode()
     junk = b"this is not json %s {0}\r\n\xe2\x80\xa8\n\n{\"jsonrpc\": \"2.0\"\n"
     n = 0
     while True:
@@ -155,6 +157,11 @@ while True:
         maybe_exit()
     if m["method"] == "hold" or closed:
         continue                               # never answered
+    if m["method"] == "initialize" and spec.get("die_on_initialize"):
+        os._exit(spec.get("code", 0))          # dies with the handshake in flight
+    if m["method"] == "initialize" and spec.get("mute_on_initialize"):
+        while True:                            # goes mute with the handshake in flight
+            time.sleep(3600)
     if m["method"] == "initialize":
         res = {"protocolVersion": (m.get("params") or {}).get("protocolVersion", "2025-06-18"), "capabilities": {},
                "serverInfo": {"name": "child", "version": "1"}}
@@ -337,7 +344,7 @@ def host_logging(case):
 
 
 CHILD_KEYS = ("k", "code", "junk", "delay", "linger", "close_after", "term_delay", "stderr", "chatty", "falsy_result",
-              "on_term", "self_exit", "stderr_flood")
+              "on_term", "self_exit", "stderr_flood", "batch", "die_on_initialize", "mute_on_initialize")
 
 
 async def _scenario(case, tmp, obs):
@@ -386,7 +393,7 @@ async def _scenario(case, tmp, obs):
             if nsess > 1:
                 shared["obj"] = t
             async with t:
-                t.set_protocol_version("2025-06-18")      # what a host does after the handshake
+                t.set_protocol_version(case.get("version") or "2025-06-18")      # what a host does after the handshake
                 yield await t.get_streams()
         elif api == "with_initialize":
             from chuk_mcp.transports.stdio.stdio_client import stdio_client_with_initialize
@@ -418,6 +425,8 @@ async def _scenario(case, tmp, obs):
             if nsess > 1:
                 shared["obj"] = c
             async with c:
+                if case.get("version"):
+                    c.set_protocol_version(case["version"])    # the version the handshake settled on (batching or not)
                 if case.get("legacy") and moment == "inflight":
                     # the per-request stream API: a registered request is still waiting when the context is left
                     shared["legacy_rx"] = c.new_request_stream("held-legacy")
@@ -775,6 +784,14 @@ def run_case(case):
     return obs
 
 
+INIT_SCALED_S = 2.0
+
+
+def answers_initialize(sp):
+    return sp["behaviour"] in ("well", "ignore_term", "slow_start", "stops_reading", "close_stdout", "exit_at") \
+        and not sp.get("die_on_initialize") and not sp.get("mute_on_initialize")
+
+
 def _run_host_runner(case, tmp, obs):
     """The stdio client contexts as the library's own multi-server host enters and leaves them:
     `mcp_client.host.server_manager.run_command` (enter every server, initialize, run the command function, leave every
@@ -788,6 +805,8 @@ def _run_host_runner(case, tmp, obs):
         d = {"kind": sp["behaviour"]}
         d.update({k: sp[k] for k in CHILD_KEYS if k in sp})
         servers[f"s{i}"] = {"command": sys.executable, "args": ["-S", "-E", script, json.dumps(d)]}
+        if "cfg_timeout" in sp:
+            servers[f"s{i}"]["timeout"] = sp["cfg_timeout"]
     cfg = os.path.join(tmp, "config.json")
     with open(cfg, "w") as f:
         json.dump({"mcpServers": servers}, f)
@@ -814,9 +833,39 @@ def _run_host_runner(case, tmp, obs):
     fd0 = nfds()
     _r, z0 = scan(tmp, me)
     import io
-    with contextlib.redirect_stdout(io.StringIO()):
-        SM.run_command(command, cfg, list(servers))
+    import threading
+    # the documented default of send_initialize (60 s) bounds a handshake nobody answers; scaled down so that such a
+    # server costs INIT_SCALED_S here (a call that passes its own timeout, or none at all, is not affected)
+    si = SM.send_initialize
+    saved_defaults = si.__defaults__
+    if saved_defaults and saved_defaults[0] == 60.0:
+        si.__defaults__ = (INIT_SCALED_S,) + tuple(saved_defaults[1:])
+    t0 = time.monotonic()
+    done = threading.Event()
+
+    def work():
+        try:
+            SM.run_command(command, cfg, list(servers))
+        finally:
+            done.set()
+
+    th = threading.Thread(target=work, daemon=True)
+    real_stdout = sys.stdout
+    sys.stdout = io.StringIO()            # restored below even when run_command never returns
+    try:
+        th.start()
+        mute = sum(1 for sp in case["servers"] if not answers_initialize(sp))
+        budget = mute * INIT_SCALED_S + len(servers) * GRACE_MS / 1000 + SLACK_MS / 1000
+        if not done.wait(budget + 1.0):
+            obs["hang"] = True
+            kill_tagged(tmp)
+            done.wait(3.0)
+    finally:
+        sys.stdout = real_stdout
+        si.__defaults__ = saved_defaults
     t_end = time.monotonic()
+    obs["total_ms"] = int((t_end - t0) * 1000)
+    obs["budget_ms"] = int(budget * 1000)
     if "exit" in clock:
         obs["duration_ms"] = int((t_end - clock["exit"]) * 1000)
     running, z = scan(tmp, me)
